@@ -824,7 +824,7 @@ func (i *Interp) equals(t types.Type, x, y value) value {
 			return x.v == yi.v
 		}
 		if !types.Comparable(x.t) {
-			panic(targetPanic{v: iface{i.runtimeErrorType, "runtime error: comparing uncomparable type " + x.t.String()}, runtime: true, msg: "comparing uncomparable type " + x.t.String()})
+			panic(targetPanic{v: iface{i.runtimeErrorType, "comparing uncomparable type " + x.t.String()}, runtime: true, msg: "comparing uncomparable type " + x.t.String()})
 		}
 		return i.equals(x.t, x.v, yi.v)
 	case rtype:
@@ -918,7 +918,9 @@ func (i *Interp) typeAssert(fr *frame, instr *ssa.TypeAssert, itf iface) value {
 	} else if sameDynType(itf.t, instr.AssertedType) {
 		v = copyVal(itf.v)
 	} else {
-		err = fmt.Sprintf("interface conversion: interface is %s, not %s", itf.t, instr.AssertedType)
+		q := func(p *types.Package) string { return p.Name() }
+		err = fmt.Sprintf("interface conversion: %s is %s, not %s", types.TypeString(instr.X.Type(), q), types.TypeString(itf.t, q), types.TypeString(instr.AssertedType, q))
+		err = strings.ReplaceAll(err, "interface{}", "interface {}")
 	}
 	if err != "" {
 		if !instr.CommaOk {
